@@ -3,6 +3,7 @@
 #define VERIF_RXBUF_H
 #include <string_view>
 #include <cstddef>
+#include <type_traits>
 namespace hv {
 struct sym_buf {
     const char* b; std::size_t n;
@@ -19,6 +20,18 @@ struct sym_buf {
     constexpr iterator begin() const { return iterator{ b }; }
     constexpr iterator end() const { return iterator{ b + n }; }
     constexpr std::string_view get_view(iterator s, iterator e) const { return std::string_view(s.ptr, e.ptr - s.ptr); }
+};
+// an error stream that really uses what is streamed into it (so that the optimiser cannot drop the reads that produce the values)
+struct use_stream {
+    unsigned acc = 0;
+    template<typename T> use_stream& operator<<(T&& v) {
+        using U = std::remove_cv_t<std::remove_reference_t<T>>;
+        if constexpr (std::is_same_v<U, const char*> || std::is_same_v<U, char*>) acc = acc * 31u + (unsigned)(unsigned char)v[0];
+        else if constexpr (std::is_integral_v<U>) acc = acc * 31u + (unsigned)v;
+        else if constexpr (std::is_same_v<U, std::string_view>) acc = acc * 31u + (unsigned)v.size() + (v.size() ? (unsigned)(unsigned char)v[0] : 0u);
+        else acc = acc * 31u + 1u;
+        return *this;
+    }
 };
 }
 #endif
